@@ -41,6 +41,7 @@ def setup(ctx):
     ctx.require("monitor", "projection_reruns", 20)
     ctx.require("monitor", "scheduled_histories", 20)
     ctx.require("monitor", "wired_decisions", 30)
+    ctx.require("monitor", "wired_tls_decisions", 40)
 
 
 class VTime:
@@ -352,6 +353,81 @@ def run_wired(ctx):
         shutil.rmtree(base, ignore_errors=True)
 
 
+def run_wired_tls(ctx):
+    """The limiter behind both TLS layers, as start_server() wires them (captured production wiring, in-process TLS,
+    one virtual clock): the bucket a connection draws from is that of the address the connection comes FROM -
+    two addresses never share one, whichever backend terminates TLS."""
+    import contextlib
+    import io
+    import os
+    import shutil
+    import tempfile
+
+    from nauyaca.server import middleware as M
+    from nauyaca.server.config import ServerConfig
+    from nauyaca.server.middleware import RateLimitConfig
+
+    from vf import quiet_logs, tlsbench
+    from vf.gen import certs
+    from vf.sim import capture_factory
+
+    base = tempfile.mkdtemp(prefix="vf-c10t-")
+    try:
+        os.makedirs(os.path.join(base, "doc"))
+        with open(os.path.join(base, "doc", "index.gmi"), "w") as f:
+            f.write("# hi\n")
+        cfg = {"capacity": 3, "rate": 0.25, "retry_after": 6}
+        ident = certs.identity("c10-client", "ec")
+        for name, kw in (("pyopenssl:require-client-cert", True), ("stdlib", False)):
+            loop = new_loop()
+            old_time = M.time
+            M.time = VTime(loop)
+            try:
+                with contextlib.redirect_stdout(io.StringIO()):
+                    cap = capture_factory(dict(enable_rate_limiting=True, rate_limit_config=RateLimitConfig(capacity=3, refill_rate=0.25, retry_after=6), log_level="CRITICAL"),
+                                          ServerConfig(host="127.0.0.1", port=1965, document_root=os.path.join(base, "doc"), require_client_cert=kw))
+                quiet_logs()
+                import asyncio as _a
+
+                _a.set_event_loop(loop)
+                a1, a2, a3 = "198.51.100.7", "2001:db8::99", "127.0.0.1"
+                events = [(0.0, [a1] * 5 + [a2] * 2 + [a3] * 4), (2.0, [a2, a1]), (9.0, [a1] * 3 + [a2] * 3 + [a3])]
+                decisions = []
+                for t, addrs in events:
+                    if t > loop.time():
+                        loop.sleep_until(t)
+                    for a in addrs:
+                        bench = tlsbench.Sandwich(loop, None, captured=cap, peername=(a, 40000) if ":" not in a else (a, 40000, 0, 0), client_identity=ident)
+                        if not bench.handshake():
+                            ctx.inconclusive_because(f"wired TLS handshake failed ({name}): {bench.error}")
+                            decisions = None
+                            break
+                        bench.client_send(b"gemini://localhost/index.gmi\r\n")
+                        loop.settle()
+                        bench.drain()
+                        stream = bytes(bench.client_plain)
+                        decisions.append((t, a, stream.startswith(b"20 "), stream.decode("latin-1")[:60]))
+                    if decisions is None:
+                        break
+                if decisions is None:
+                    continue
+                exp = model(cfg, events)
+                ctx.count("monitor", "wired_tls_decisions", len(decisions))
+                ctx.count("monitor", "wired_decisions", len(decisions))
+                for idx, ((t, a, adm, resp), (eadm, margin)) in enumerate(zip(decisions, exp)):
+                    if adm != eadm:
+                        ctx.violation(f"{'over-admission' if adm else 'spurious-refusal'}:via=start_server+tls:{name.split(':')[0]}",
+                                      f"behind the {name} TLS layer request #{idx} from {a} at t={t} was {'admitted' if adm else 'refused'} ({resp!r}); that address's own bucket has {float(margin + 1):.3f} tokens",
+                                      {"variant": name, "config": cfg, "events": [(t, x) for t, x in events], "decisions": [(d[0], d[1], d[2]) for d in decisions]})
+                        break
+                ctx.case(("wired-tls", name, tuple(d[2] for d in decisions)), True, sample={"variant": name, "config": cfg, "decisions": [(d[1], d[2]) for d in decisions]})
+            finally:
+                M.time = old_time
+                close_loop(loop)
+    finally:
+        shutil.rmtree(base, ignore_errors=True)
+
+
 def run_effect(ctx):
     """Admissions counted where they matter: behind the limiter, the number of requests that reach a handler
     (Gemini handler, Titan upload handler, Titan delete) never exceeds what the limiter admitted - a refused
@@ -385,6 +461,8 @@ def run(ctx):
         run_wired(ctx)
     if ctx.shard == 1 or ctx.nshards == 1:
         run_effect(ctx)
+    if ctx.mine(2) or ctx.nshards == 1:
+        run_wired_tls(ctx)
     rng = ctx.rng("c10")
     k = 0
     # ---- exhaustive small scope
